@@ -25,7 +25,8 @@ ASSUMPTIONS = ["no write faults in the model-compared runs; connection instants 
                "expiry)"]
 REQUIRED_OBS = ["expiry_during_connected_notification", "full_buffer_flushed_after_write_fault", "overflow_raised_during_fault_handling",
                 "overflow_raised", "expired_purged_made_room", "flushes_compared",
-                "not_open_raised", "held_after_overflow_sent"]
+                "not_open_raised", "held_after_overflow_sent",
+                "overflow_through_every_public_sender"]
 BUDGET = {"quick": 100, "thorough": 1500}
 
 CAP = 10
@@ -160,6 +161,7 @@ def cases(tier, seed):
             yield {"gen": gen, "ops": ops}
         for ops in with_write_faults():
             yield {"gen": gen, "ops": ops, "k": "wf"}
+        yield {"gen": gen, "k": "api", "held": 10, "ops": []}
     n = 300 if tier == "quick" else 150000
     for i in range(n):
         yield {"gen": rnd.choice((4, 5)), "ops": gen_script(rnd)}
@@ -349,7 +351,90 @@ def check(gen, run):
     return viol, obs
 
 
+def run_api(case):
+    """The same bound seen through the public API: ten commands held for a down link, then
+    every public method that sends something is tried as the eleventh."""
+    import datetime
+    import pyairtouch.api as api
+    import pyairtouch.comms.socket as psock
+    from .. import apiworld as AW
+    from .. import console as C
+    from ..sockworld import quiesce
+    import asyncio
+    gen = case["gen"]
+    viol, obs, out = [], {}, {}
+
+    async def main(loop, net, log):
+        w = AW.ApiWorld(gen, loop, net, log, C.default_installation(gen, 2, (2, 1)),
+                        C.Knobs(apply_commands=False))
+        if await w.init() is not True:
+            out["init"] = False
+            return
+        await quiesce(loop)
+        ac, zone = w.ac, w.zone(0)
+        net.default = ("refuse", 0.0)
+        w.conn().transport.peer_eof()
+        await quiesce(loop)
+        fans = ac.supported_fan_speeds
+        for i in range(case["held"]):
+            await ac.set_fan_speed(fans[i % len(fans)])
+        elevenths = {
+            "ac.set_power": lambda: ac.set_power(api.AcPowerControl.TURN_ON),
+            "ac.set_mode": lambda: ac.set_mode(ac.supported_modes[0]),
+            "ac.set_fan_speed": lambda: ac.set_fan_speed(fans[0]),
+            "ac.set_target_temperature": lambda: ac.set_target_temperature(23.0),
+            "ac.set_quick_timer(duration)": lambda: ac.set_quick_timer(
+                api.AcTimerType.OFF_TIMER, datetime.timedelta(minutes=30)),
+            "ac.set_quick_timer(time)": lambda: ac.set_quick_timer(
+                api.AcTimerType.ON_TIMER, datetime.time(6, 30)),
+            "ac.clear_quick_timer": lambda: ac.clear_quick_timer(api.AcTimerType.ON_TIMER),
+            "zone.set_power": lambda: zone.set_power(api.ZonePowerState.OFF),
+            "zone.set_target_temperature": lambda: zone.set_target_temperature(22.0),
+            "zone.set_damper_percentage": lambda: zone.set_damper_percentage(40),
+            "airtouch.check_for_updates": lambda: w.at.check_for_updates(),
+        }
+        res = {}
+        for name, fn in elevenths.items():
+            try:
+                await fn()
+                res[name] = "returned"
+            except psock.QueueOverflowError:
+                res[name] = "QueueOverflowError"
+            except Exception as e:  # noqa: BLE001
+                res[name] = repr(e)
+        out["res"] = res
+        n0 = len(w.console.frames)
+        net.default = ("accept", 0.0)
+        await asyncio.sleep(3.0)
+        await quiesce(loop)
+        out["flushed"] = [cmd["kind"] for (t, c, f, cmd) in w.console.frames[n0:]
+                          if cmd["kind"] not in ("ac_status_request", "zone_status_request")]
+        await w.at.shutdown()
+
+    _, log, st = H.run(main)
+    if st != "ok" or out.get("init") is False:
+        viol.append({"mechanism": "socket-scenario-hang", "detail": {"status": st, "out": repr(out)}})
+        return {"violations": viol, "evals": 1, "decided": 0, "obs": obs}
+    full = case["held"] >= CAP
+    for name, r in out["res"].items():
+        if full and r != "QueueOverflowError":
+            viol.append({"mechanism": "eleventh-message-accepted:" + name,
+                         "detail": {"gen": gen, "held": case["held"], "outcome": r}})
+        elif not full and r != "returned" and name == sorted(out["res"])[0]:
+            pass
+    if full:
+        if out["flushed"] != ["ac_control"] * CAP:
+            viol.append({"mechanism": "held-message-not-transmitted-on-connect",
+                         "detail": {"gen": gen, "flushed": out["flushed"][:14], "api": True}})
+        else:
+            obs["overflow_through_every_public_sender"] = 1
+    return {"violations": viol, "evals": len(out["res"]), "decided": 1 if full else 0,
+            "obs": obs, "sample": {"gen": gen, "api_level": True}}
+
+
 def run_case(case):
+    if case.get("k") == "api":
+        return run_api(case)
     gen = case["gen"]
     run = S.run_script(gen, case["ops"], settle=10.0)
     if case.get("k") == "wf":
